@@ -124,5 +124,50 @@ func SelfcheckMain(args []string) int {
 		return 2
 	}
 	fmt.Printf("selfcheck: loaded /repo with harness overlay in %v; %d harness functions\n", l.LoadTime, len(harnessNames(l, "decimal"))+len(harnessNames(l, "context")))
+	// translator validation: a fully concrete harness over the real code must evaluate, in the
+	// executor, exactly as the native build does
+	x := sym.NewExec(l)
+	SetContracts(x, "none")
+	job := &sym.Job{Pkg: "decimal", Harness: "H_self_concrete", Cfg: map[string]int64{}}
+	res := x.RunJobs([]*sym.Job{job}, 1)[0]
+	bad := []Violation{}
+	for _, o := range res.Obls {
+		if o.Status != "proved" {
+			bad = append(bad, Violation{Property: "selfcheck", Harness: job.Harness, Pkg: "decimal", Cfg: job.Cfg, Obligation: o.ID, Values: map[string]string{}})
+		}
+	}
+	if len(res.Errors) > 0 || res.Paths != 1 {
+		fmt.Println("selfcheck: executor failed on the concrete harness:", res.Errors)
+		return 2
+	}
+	if len(bad) == 0 {
+		fmt.Printf("selfcheck: concrete translator validation ok (%d SSA instructions of the real code, %d assertions)\n", res.Steps, len(res.Obls))
+		return 0
+	}
+	// the executor disagrees with the recorded expectations: does the native build disagree too
+	// (the library changed) or only the executor (a translator bug)?
+	work := filepath.Join(VerifDir(), ".work", "selfcheck")
+	os.MkdirAll(work, 0o755)
+	defer os.RemoveAll(work)
+	reps := selectForReplay(bad, 100)
+	runReplays("selfcheck", l, reps, work)
+	mismatch := false
+	for _, v := range reps {
+		native := false
+		for _, r := range v.Confirmed {
+			if strings.HasPrefix(r, "FAIL") {
+				native = true
+			}
+		}
+		if !native {
+			fmt.Printf("selfcheck: TRANSLATOR MISMATCH on %s: the executor fails it, the native build passes (%v)\n", v.Obligation, v.Confirmed)
+			mismatch = true
+		} else {
+			fmt.Printf("selfcheck: note: %s fails natively as well (the library's output changed); executor and native build agree\n", v.Obligation)
+		}
+	}
+	if mismatch {
+		return 2
+	}
 	return 0
 }
